@@ -2155,7 +2155,9 @@ def read_lines(path_or_source, *, include=False, include_dirs=None):
             include_lines = read_lines(include_path, include=True, include_dirs=include_dirs)
             lines.extend(include_lines)
         # handle existence and size of include_bytes in the reader
-        elif raw_line.lower().startswith('include_bytes '):
+        # (a data line like any other: it may be indented, use a tab and carry a trailing comment)
+        elif re.match(r'\s*include_bytes\s', raw_line, re.IGNORECASE):
+            raw_line = re.sub(r'#.*$', r'', raw_line).strip()
             try:
                 _, rel_path = raw_line.split()
             except ValueError:
